@@ -241,6 +241,21 @@ def run_case(case, ctx):
     if judge(ctx, [cur[i] for i in order], f, r, "api-reassigned-ranges", "after range_defns assignment") in ("err", "bad"):
       return
     ctx.count("reassignments_checked")
+  # ---------------- API usage variant: the SAME Multi_Range_Defn objects serve two potential forms whose other ranges
+  # differ (where a range ends belongs to the form, not to the definition object)
+  if n >= 2:
+    defs_a = mk(parts, range(n))
+    shift = [[m_, s_ + (0.5 if k_ else 0.0), c_] for k_, (m_, s_, c_) in enumerate(parts)]
+    fa = create_Multi_Range_Potential_Form(*defs_a)
+    # second form: keeps the first definition OBJECT, its other ranges start 0.5 later
+    defs_b = [defs_a[0]] + mk(shift, range(1, n))
+    fb = create_Multi_Range_Potential_Form(*defs_b)
+    for r in eval_orders(sorted(set(pts) | set(points(shift))), rng)[:120]:
+      if judge(ctx, parts, fa, r, "api-shared-definition-objects", "first form, evaluated after the second was built") in ("err", "bad"):
+        return
+      if judge(ctx, shift, fb, r, "api-shared-definition-objects", "second form") in ("err", "bad"):
+        return
+      ctx.count("shared_definition_points")
   # ---------------- potable route: all listings of this set in one file; the first part may omit '>0'
   lines = []
   metas = []
